@@ -237,6 +237,8 @@ fn text_value(a: &TextArchive, fmt: &str) -> Value {
 fn format_replay(cases_path: &str, out_path: &str) {
     let cases = read_ndjson(cases_path);
     let mut out = NdWriter::create(out_path);
+    // every image mila produced for a generated value is also handed to the trace validator (structural checks by TLC)
+    let mut events = NdWriter::create(&format!("{}.events", out_path));
     let (mut n, mut bad) = (0u64, 0u64);
     for (i, c) in cases.iter().enumerate() {
         n += 1;
@@ -258,11 +260,14 @@ fn format_replay(cases_path: &str, out_path: &str) {
                 return Err(("harness".to_string(), format!("stored entries differ from the case: {}", stored)));
             }
             let bytes = a.serialize().map_err(|x| ("serialize".to_string(), x.to_string()))?;
-            if c["exact"].as_bool().unwrap_or(true) && bytes != image {
-                return Err(("image".to_string(), format!("serialized bytes differ from the specification image: got {:?}", bytes)));
-            }
             let b = TextArchive::from_bytes(&bytes, f, e).map_err(|x| ("parse".to_string(), x.to_string()))?;
             let got = text_value(&b, fmt);
+            events.put(&json!({"op": "text", "fmt": fmt, "endian": endian, "title": c["title"], "entries": c["entries"],
+                               "bytes": bytes, "reparsed": got}));
+            if c["exact"].as_bool().unwrap_or(true) && bytes != image {
+                // the statement does not fix the byte image: information, not a violation
+                return Err(("image-info".to_string(), "serialized bytes differ from the specification image".to_string()));
+            }
             if got != expected {
                 return Err(("roundtrip".to_string(), format!("re-parsed value differs: got {}", got)));
             }
@@ -280,6 +285,10 @@ fn format_replay(cases_path: &str, out_path: &str) {
             Ok(Err((w, y))) => (w, y),
             Err(p) => ("panic".to_string(), p),
         };
+        if what == "image-info" {
+            out.put(&json!({"kind": "info", "what": what, "i": i, "fmt": fmt, "endian": endian}));
+            continue;
+        }
         bad += 1;
         let first_unit = c["entries"].as_array().unwrap().iter().filter_map(|kv| kv[1].as_array().unwrap().first().cloned()).collect::<Vec<_>>();
         out.put(&json!({"kind": if what == "harness" { "unbuildable" } else { "mismatch" }, "what": what, "why": why, "i": i,
@@ -287,6 +296,7 @@ fn format_replay(cases_path: &str, out_path: &str) {
     }
     out.put(&json!({"kind": "summary", "cases": n, "mismatches": bad}));
     out.finish();
+    events.finish();
 }
 
 fn random_text(rng: &mut Rng, fmt: &str) -> String {
